@@ -233,6 +233,13 @@ impl Group for Dispatch {
             format!("c19.dispatch {}", hex(b"nonexistent a b")),
             format!("c19.dispatch {}", hex(b"  ping   a  'b c' ")),
             format!("c19.dispatch {}", hex(b"'pi'ng x")),
+            // requests around and far beyond 4 KiB (the size of the buffer the listener starts with): one long argument, many short ones
+            format!("c19.dispatch {}", hex(format!("ping {}", "a".repeat(4091)).as_bytes())),
+            format!("c19.dispatch {}", hex(format!("ping {}", "b".repeat(4092)).as_bytes())),
+            format!("c19.dispatch {}", hex(format!("ping {}", "c".repeat(5000)).as_bytes())),
+            format!("c19.dispatch {}", hex(format!("ping {}", "\u{e9}".repeat(9000)).as_bytes())),
+            format!("c19.dispatch {}", hex(format!("ping{}", " xy".repeat(3000)).as_bytes())),
+            format!("c19.dispatch {}", hex(format!("x{}", "q".repeat(70_000)).as_bytes())),
             // a well-formed command followed by the beginning of a multi-byte character and nothing else: not UTF-8 either
             "c19.dispatch !70696e67206120e282".to_owned(),
             "c19.dispatch !70696e6720c3".to_owned(),
